@@ -293,11 +293,23 @@ impl<K: SimKernel<D>, const D: usize> Monitor<K, D> for C15 {
                 ctx.stats.bump("c15.periodic_state_rejected_by_levels_1_2");
                 return;
             }
-            if dt.as_triangulation().is_valid().is_err() {
+            // Level 3: either the library's own verdict, or - because `Triangulation::is_valid`
+            // expects chi = 2 ("ClosedSphere") of every complex without boundary and therefore
+            // rejects the tori its own builder returns - the reference verdict "connected closed
+            // pseudomanifold": every facet in exactly two cells, one component.
+            let lib_l3 = dt.as_triangulation().is_valid().is_ok();
+            let closed = {
+                let fmap = refval::facet_map(post);
+                let two_sided = fmap.values().all(|i| i.incident.len() == 2);
+                let mut l3 = refval::Report::default();
+                refval::level3(post, Strength::Pseudomanifold, false, &mut l3);
+                two_sided && !l3.violations.iter().any(|v| matches!(v.kind, "disconnected" | "facet-degree" | "isolated-vertex"))
+            };
+            if !lib_l3 && !closed {
                 ctx.stats.bump("c15.periodic_state_rejected_by_level_3");
                 return;
             }
-            ctx.stats.bump("c15.periodic_state_judged");
+            ctx.stats.bump(if lib_l3 { "c15.periodic_state_judged_library_level3" } else { "c15.periodic_state_judged_closed_quotient" });
             ctx.stats.evaluations += 1;
             let kind = ctx.oprec.op.kind();
             for (what, detail) in compare_counts(dt, post) {
